@@ -716,7 +716,7 @@ impl<'de> serde::de::Visitor<'de> for BlockIdentifierVisitor {
 	where
 		E: serde::de::Error,
 	{
-		let block_hash = Hash::from_hex(s).unwrap();
+		let block_hash = Hash::from_hex(s).map_err(|e| E::custom(format!("{}", e)))?;
 		Ok(BlockIdentifier(block_hash))
 	}
 }
